@@ -16,10 +16,9 @@ const C07: &[&str] = &["C07"];
 const C08: &[&str] = &["C08"];
 const C0708: &[&str] = &["C07", "C08"];
 
+/// under std's SipHash AND under a hasher that is sensitive to the sequence of `write` calls
 fn h<T: Hash + ?Sized>(v: &T) -> u64 {
-	let mut s = DefaultHasher::new();
-	v.hash(&mut s);
-	s.finish()
+	hash2(v)
 }
 
 fn sign(o: Ordering) -> i8 {
